@@ -402,6 +402,10 @@ IsT(x) == x = TT \/ x = TAbs
 StateSum(n) == LET s == e.nodes[n].states IN Sum([k \in DOMAIN s |-> s[k]], DOMAIN s)
 GroupA(n) == LET s == e.nodes[n].states IN s["SETUP_STATE"] + s["IDLE_STATE"] + s["ATLEAST_ONE_PROCESSING_STATE"] + s["ALL_ACTIVE_BLOCKED_STATE"]
 GroupB(n) == LET s == e.nodes[n].states IN s["SETUP_STATE"] + s["IDLE_STATE"] + s["ALL_ACTIVE_PROCESSING_STATE"] + s["ATLEAST_ONE_BLOCKED_STATE"]
+\* a work node takes nothing from an in-edge before its set-up period (node_setup_time after it was started) is over
+T_C08_AfterSetup ==
+  (e.k = "get" /\ e.res = "item" /\ e.n > 0) =>
+     (Node(e.n).type \in {"machine", "splitter", "combiner"} => e.t >= Node(e.n).setup)
 T_C17_NonNeg == e.k = "final" => \A n \in 1..NN : \A k \in DOMAIN e.nodes[n].states : e.nodes[n].states[k] >= 0
 T_C17_SumT ==
   e.k = "final" => \A n \in 1..NN :
